@@ -50,5 +50,6 @@ class FileProxy(io.TextIOBase):
     def flush(self) -> None:
         buffer = self.__buffer
         if buffer:
-            self.__console.print("".join(buffer))
+            output = self.__ansi_decoder.decode_line("".join(buffer))
+            self.__console.print(output, markup=False, emoji=False, highlight=False)
             del buffer[:]
